@@ -80,6 +80,21 @@ static PARKED_SITE: [std::sync::atomic::AtomicUsize; 64] = [const { std::sync::a
 /// process. Always empty on code that holds no lock across a hook point.
 pub static CRITICAL_SITES: AtomicU64 = AtomicU64::new(0);
 
+/// Set while a client executes a call into the library under test (and cleared inside the hook).
+static IN_LIBRARY: [AtomicBool; 64] = [const { AtomicBool::new(false) }; 64];
+
+fn client_in_library(id: usize) -> bool {
+    IN_LIBRARY[id % 64].load(Ordering::SeqCst)
+}
+
+/// Runs a library call with the client marked as executing code under test.
+fn in_library<T>(id: usize, f: impl FnOnce() -> T) -> T {
+    IN_LIBRARY[id % 64].store(true, Ordering::SeqCst);
+    let r = f();
+    IN_LIBRARY[id % 64].store(false, Ordering::SeqCst);
+    r
+}
+
 fn note_lock_handover() {
     for p in PARKED_SITE.iter() {
         let v = p.load(Ordering::SeqCst);
@@ -100,7 +115,9 @@ pub fn point_hook(site: &'static str) {
             shared.site_hits[ix].fetch_add(1, Ordering::Relaxed);
             if shared.site_enabled[ix] && CRITICAL_SITES.load(Ordering::Relaxed) & (1u64 << ix) == 0 {
                 PARKED_SITE[id % 64].store(ix + 1, Ordering::SeqCst);
+                IN_LIBRARY[id % 64].store(false, Ordering::SeqCst);
                 shared.sched.yield_point(id, true);
+                IN_LIBRARY[id % 64].store(true, Ordering::SeqCst);
                 PARKED_SITE[id % 64].store(0, Ordering::SeqCst);
             }
         }
@@ -166,13 +183,13 @@ fn client_main(id: usize, hash_seed: u64, ops: Vec<Op>, shared: Arc<Shared>) {
         }
         match op {
             Op::New { slot, cases } => {
-                let b = RegExpBuilder::from(cases);
+                let b = in_library(id, || RegExpBuilder::from(cases));
                 put(&mut slots, *slot, b);
                 record(&shared, i, EvKind::New);
             }
             Op::Set { slot, setter } => {
                 let b = slots[*slot].as_mut().expect("set on empty slot");
-                let r = guarded(|| setter.apply_real(b));
+                let r = in_library(id, || guarded(|| setter.apply_real(b)));
                 record(
                     &shared,
                     i,
@@ -184,12 +201,14 @@ fn client_main(id: usize, hash_seed: u64, ops: Vec<Op>, shared: Arc<Shared>) {
             }
             Op::FailSet { slot, which } => {
                 let b = slots[*slot].as_mut().expect("failset on empty slot");
-                let r = guarded(|| {
-                    if *which == 0 {
-                        b.with_minimum_repetitions(0);
-                    } else {
-                        b.with_minimum_substring_length(0);
-                    }
+                let r = in_library(id, || {
+                    guarded(|| {
+                        if *which == 0 {
+                            b.with_minimum_repetitions(0);
+                        } else {
+                            b.with_minimum_substring_length(0);
+                        }
+                    })
                 });
                 record(
                     &shared,
@@ -203,7 +222,7 @@ fn client_main(id: usize, hash_seed: u64, ops: Vec<Op>, shared: Arc<Shared>) {
             Op::Build { slot } => {
                 let b = slots[*slot].as_mut().expect("build on empty slot");
                 shared.in_build[id].store(true, Ordering::Relaxed);
-                let r = guarded(|| b.build());
+                let r = in_library(id, || guarded(|| b.build()));
                 shared.in_build[id].store(false, Ordering::Relaxed);
                 let o = match r {
                     Ok(s) => Outcome::Ok(s),
@@ -212,7 +231,7 @@ fn client_main(id: usize, hash_seed: u64, ops: Vec<Op>, shared: Arc<Shared>) {
                 record(&shared, i, EvKind::Build(o));
             }
             Op::Clone { from, to } => {
-                let c = slots[*from].as_ref().expect("clone of empty slot").clone();
+                let c = in_library(id, || slots[*from].as_ref().expect("clone of empty slot").clone());
                 put(&mut slots, *to, c);
                 record(&shared, i, EvKind::Clone);
             }
@@ -235,7 +254,7 @@ fn client_main(id: usize, hash_seed: u64, ops: Vec<Op>, shared: Arc<Shared>) {
         // switch point at every API call boundary
         shared.sched.yield_point(id, false);
     }
-    drop(slots);
+    in_library(id, || drop(slots));
     CLIENT.with(|c| *c.borrow_mut() = None);
     shared.sched.finish(id);
 }
@@ -248,6 +267,7 @@ pub struct RunResult {
     pub steps: u64,
     pub deadlock: bool,
     pub lock_handovers: u64,
+    pub sched_state: String,
     pub site_hits: Vec<u64>,
 }
 
@@ -257,6 +277,10 @@ pub fn execute_run(spec: &RunSpec) -> RunResult {
     let all_sites = spec.sites.iter().any(|s| s == "*");
     let mut sched = Sched::new(n, spec.mailboxes, &spec.sched, est_steps);
     sched.on_lock_handover = Some(note_lock_handover);
+    sched.in_code_under_test = Some(client_in_library);
+    for f in IN_LIBRARY.iter() {
+        f.store(false, Ordering::SeqCst);
+    }
     for p in PARKED_SITE.iter() {
         p.store(0, Ordering::SeqCst);
     }
@@ -300,6 +324,7 @@ pub fn execute_run(spec: &RunSpec) -> RunResult {
         steps,
         deadlock,
         lock_handovers: shared.sched.lock_handovers(),
+        sched_state: if deadlock { shared.sched.describe() } else { String::new() },
         site_hits: shared.site_hits.iter().map(|a| a.load(Ordering::Relaxed)).collect(),
     }
 }
